@@ -357,7 +357,7 @@ def _library_twin(P, which, lam):
 
 BOUNDS = {"quick": {"n": "3-4 individuals (R5S 6), d 1-2", "draws": "shared symbolic tournament indices"},
           "thorough": {"n": "4-5 (R5S 7)"}}
-OUTSIDE = ["whole-run twin clause (bit-exact RNG replay of two complete runs)", "MWEA and FitnessSteadiness (excluded by the property)",
+OUTSIDE = ["whole-run twin clause beyond the listed engine mixes / run lengths (it is decided for them: twinrun.* cases, concrete seeded runs under a shared symbolic schedule)", "MWEA and FitnessSteadiness (excluded by the property)",
            "ties in Population.topk / select_new_population (numpy's argsort tie order is unspecified; same *values* are selected)"]
 ASSUMPTIONS = ["profile 'real': fitness values are mathematical reals, negation exact; no NaN"]
 
@@ -388,4 +388,6 @@ def cases(tier):
                dict(name="nbc.n3.d2", fn=h_nbc, params=dict(n=3, d=2), **R),
                dict(name="r5s.n7", fn=h_r5s, params=dict(n=7), weight=60, **R),
                dict(name="de.n3", fn=h_de, params=dict(n=3), **R)]
+    from .trun import twin_cases
+    cs += twin_cases(tier)
     return cs
